@@ -2,7 +2,11 @@
   Property C05 — reweighting, correlating and merging pair samples by configuration number.
   Property theorems only.
 -/
+import Mathlib.Tactic.Linarith
+import Mathlib.Tactic.Ring
 import PV.Model.Combine
+import PV.Proofs.C05Lemmas
+import PV.Proofs.RealScalar
 
 namespace PV
 open Scalar
@@ -14,5 +18,147 @@ theorem c05_reweight_rejects_covobs (w o : Obs α) (ac : Bool) (h : o.covs.lengt
     ∃ e, reweight1 w o ac = .error e := by
   unfold reweight1
   simp [h, bind, Except.bind, throw, throwThe, MonadExceptOf.throw]
+
+
+section by_configuration_number
+
+open Scalar
+
+/-- the per-configuration sample of chain `n` of `o` on configuration `c` (fluctuation + replica
+    mean); `none` where not measured -/
+def sampleAt {α : Type} [Scalar α] (o : Obs α) (n : String) (c : Int) : Option α := do
+  let r ← o.rep? n
+  let k ← r.idl.pos? c
+  let d ← r.deltas[k]?
+  pure (d + r.rvalue)
+
+section generic
+variable {α : Type} [Scalar α]
+
+/-- C05 (selection by configuration number): `_reduce_deltas` returns, for every configuration of
+    the new list, the entry that the old list holds *at that configuration number* -/
+theorem c05_reduce_lookup (d : List α) (old new : Idl) (d' : List α)
+    (hold : Idl.strictInc old.toList = true) (hnew : Idl.strictInc new.toList = true)
+    (h : reduceDeltas d old new = some d') :
+    d'.length = new.len ∧
+    ∀ k, k < new.len → ∃ j, old.pos? (new.toList.getD k 0) = some j ∧ d'[k]? = d[j]? := by
+  exact C05.reduce_lookup d old new d' hold hnew h
+
+/-- C05 (rejection): a configuration of the new list that the old list lacks makes the selection fail -/
+theorem c05_reduce_rejects (d : List α) (old new : Idl)
+    (hold : Idl.strictInc old.toList = true) (hnew : Idl.strictInc new.toList = true)
+    (hbad : ∃ c ∈ new.toList, c ∉ old.toList) : reduceDeltas d old new = none := by
+  exact C05.reduce_rejects d old new hold hbad
+end generic
+
+section elem
+variable {α : Type} [Elem α]
+
+/-- C05 (flag): a reweighted result carries the flag -/
+theorem c05_reweight_flag (w o r : Obs α) (ac : Bool) (h : reweight1 w o ac = .ok r) : r.reweighted = true := by
+  rw [C05.reweight1_eq] at h
+  split at h
+  · cases h
+  split at h
+  · cases h
+  split at h
+  · cases h
+  obtain ⟨_, _, h⟩ := C05.bind_ok h
+  exact C05.rwFinish_flag w o r ac h
+
+/-- C05 (rejection): an observable with a configuration the weight lacks is refused -/
+theorem c05_reweight_rejects_missing_config (w o : Obs α) (ac : Bool) (r : Rep α) (wr : Rep α)
+    (hr : r ∈ o.reps) (hw : w.rep? r.name = some wr) (hbad : ∃ c ∈ r.idl.toList, c ∉ wr.idl.toList) :
+    ∃ e, reweight1 w o ac = .error e := by
+  rw [C05.reweight1_eq]
+  split
+  · exact ⟨_, rfl⟩
+  split
+  · exact ⟨_, rfl⟩
+  split
+  · exact ⟨_, rfl⟩
+  have hf : ∀ y, (∃ e, C05.rwBody w y PUnit.unit = .error e) ∨ C05.rwBody w y PUnit.unit = .ok (.yield PUnit.unit) := by
+    intro y
+    unfold C05.rwBody
+    split
+    · exact Or.inl ⟨_, rfl⟩
+    · split
+      · exact Or.inl ⟨_, rfl⟩
+      · exact Or.inr rfl
+  have hxe : ∃ e, C05.rwBody w r PUnit.unit = .error e := by
+    unfold C05.rwBody
+    rw [hw]
+    obtain ⟨c, hc, hcw⟩ := hbad
+    have : (!(r.idl.toList.all fun c => wr.idl.toList.contains c)) = true := by
+      simp only [Bool.not_eq_true', List.all_eq_false]
+      exact ⟨c, hc, by simpa using hcw⟩
+    simp only [this, if_true]
+    exact ⟨_, rfl⟩
+  obtain ⟨e, he⟩ := C05.forIn_error o.reps (C05.rwBody w) hf r hr hxe
+  rw [he]
+  exact ⟨e, rfl⟩
+
+/-- C05 (correlate, rejections): different chains or different configuration lists raise -/
+theorem c05_correlate_rejects_names (a b : Obs α) (h : a.names ≠ b.names) : ∃ e, correlate a b = .error e := by
+  rw [C05.correlate_eq]
+  split
+  · exact ⟨_, rfl⟩
+  rw [if_pos (by simpa using h)]
+  exact ⟨_, rfl⟩
+
+theorem c05_correlate_rejects_idl (a b : Obs α) (ra rb : Rep α) (hz : (ra, rb) ∈ List.zip a.reps b.reps)
+    (hbad : ra.idl.toList ≠ rb.idl.toList) : ∃ e, correlate a b = .error e := by
+  rw [C05.correlate_eq]
+  split
+  · exact ⟨_, rfl⟩
+  split
+  · exact ⟨_, rfl⟩
+  split
+  · exact ⟨_, rfl⟩
+  obtain ⟨e, he⟩ := C05.forIn_error _ C05.corrBody C05.corrBody_cases (ra, rb) hz (by
+    unfold C05.corrBody
+    split
+    · exact ⟨_, rfl⟩
+    · have : (!(ra.idl.sameSeq rb.idl && ra.idl.isRange == rb.idl.isRange)) = true := by
+        simp [Idl.sameSeq, hbad]
+      simp only [this, if_true]
+      exact ⟨_, rfl⟩)
+  rw [he]
+  exact ⟨e, rfl⟩
+
+/-- C05 (merge, rejection): a replica that occurs twice raises -/
+theorem c05_merge_rejects_duplicate (l : List (Obs α))
+    (hdup : ¬ (l.flatMap (fun o => o.names ++ o.covNames)).Nodup) : ∃ e, mergeObs l = .error e := by
+  rw [C05.mergeObs_eq]
+  split
+  · exact ⟨_, rfl⟩
+  rename_i hlen
+  simp only [bne_iff_ne, ne_eq, Decidable.not_not] at hlen
+  exact absurd (C05.nodup_of_sortedSetStr _ hlen) hdup
+end elem
+
+section real
+/-- C05 (correlate): on every configuration of every chain the sample of the result is the product
+    of the two inputs' samples on that same configuration number -/
+theorem c05_correlate_samples (a b o : Obs ℝ) (h : correlate a b = .ok o)
+    (hwf : a.WF = true ∧ b.WF = true) :
+    o.names = a.names ∧ o.reweighted = (a.reweighted || b.reweighted) ∧
+    ∀ ra ∈ a.reps, ∀ c ∈ ra.idl.toList, ∃ x y,
+      sampleAt a ra.name c = some x ∧ sampleAt b ra.name c = some y ∧ sampleAt o ra.name c = some (x * y) := by
+  exact C05.correlate_samples a b o h hwf
+
+/-- C05 (merge): the chains of the result are the union of the inputs' chains, each with its
+    configuration list and samples unchanged -/
+theorem c05_merge_union (l : List (Obs ℝ)) (o : Obs ℝ) (h : mergeObs l = .ok o)
+    (hwf : ∀ x ∈ l, x.WF = true) :
+    (∀ x ∈ l, ∀ r ∈ x.reps, ∀ c ∈ r.idl.toList, ∃ s, sampleAt x r.name c = some s ∧ sampleAt o r.name c = some s) ∧
+    (∀ n ∈ o.names, ∃ x ∈ l, n ∈ x.names) ∧ o.reweighted = l.any (·.reweighted) := by
+  exact C05.merge_union l o h hwf
+end real
+
+
+
+
+end by_configuration_number
 
 end PV
